@@ -332,8 +332,9 @@ def gen_config(chk, B, E):
                         units = {'0': 0, '10': 10, '7': 7, '12': 12, '1KB': 1024}
                         cfg = (redirect, units[cap[0]], 0 if redirect else units[cap[1]], ev[0], ev[1] and not redirect)
                         ops = [('spawn', 0, 'ok'),
-                               ('write', 0, 'stdout', b'OUT line ' + B + b'oc' + E + b' o2\n'),
-                               ('write', 0, 'stderr', b'ERR line ' + B + b'ec' + E + b' e2\n'),
+                               # the output contains what a formatting step could trip over: % %s %d %(x)s 100%
+                               ('write', 0, 'stdout', b'OUT 100% %s %d line ' + B + b'oc' + E + b' OUT %(x)s o2 50%\n'),
+                               ('write', 0, 'stderr', b'ERR 100% %s %d line ' + B + b'ec' + E + b' ERR %(x)s e2 %\n'),
                                ('read', 0, 'stdout', 3000), ('read', 0, 'stderr', 3000), ('exit', 0), ('reap', 0)]
                         jobs.append(('config', ([cfg], False, 3, ops, {'loglevel': LOGLEVELS[k % 7], 'sections': [sec]})))
     return jobs
